@@ -127,12 +127,26 @@ CLAIMED = {
              "argument (value as list/tuple/list subclass/dict/dict view/generator/async generator, nested lists, fill/start/"
              "default/test arguments) is deep-snapshotted before and after direct calls of every filter in sync and async "
              "environments and around templates that use the same variable again after the filter; new-object filters must not "
-             "return the argument and modifying the result must not reach it; results equal across variants.",
+             "return the argument and modifying the result must not reach it; results equal across variants. Attribute paths "
+             "(Props/C22Attr.lean over Model/FiltColl.lean attrWalk = a fold over the parts of the dotted path with the default "
+             "substituted after EACH part): if every prefix of the path is defined the getter returns the looked-up value "
+             "(attr_defined); with a default that has none of the path's parts it returns the looked-up value or, as soon as some "
+             "prefix is undefined (first, middle or last part), the default (attr_default); with any given default it never raises "
+             "and never returns an Undefined (attr_default_total); without default an undefined last part gives an Undefined, an "
+             "undefined earlier part UndefinedError, ChainableUndefined an Undefined (attr_nodefault_*); the statement skeleton of "
+             "make_attrgetter / make_multi_attrgetter / _prepare_attribute_parts is read from filters.py every run and pinned "
+             "(attrgetter_shape). Tie: the Lean driver gives make_attrgetter's outcome per item and the outcome of map, groupby, "
+             "unique, sort (multi-attribute), min, max, sum, join, selectattr, rejectattr for random paths of 1-3 parts (names, "
+             "integer parts) over dicts, objects, dicts in objects, lists, indexed strings with the first / a middle / the last "
+             "part missing on some items, default absent / None / falsy / truthy / container, under Undefined, ChainableUndefined "
+             "and StrictUndefined, compared with the real code directly, via call_filter (sync, async) and via templates.",
         note="Trusted: Lean kernel; hand model Model/FiltColl.lean; Python's sorted() = stable merge sort, str order = "
              "code-point order (ASCII keys); sort theorems assume a total transitive order; the 'Python definition' filters "
              "(reverse, first, last, length, list, join, map, select, reject, selectattr, rejectattr) are correspondence only; "
              "the may-alias analysis of translate/filter_mutators.py (its lists of constructor / scalar / mutator names) and the "
-             "snapshot oracle; methods of non-builtin argument types are not analysed.",
+             "snapshot oracle; methods of non-builtin argument types are not analysed; Environment.getitem is modelled for str-keyed "
+             "dicts, plain objects, lists, strings, ints, None and names that are not methods of builtin types; filter outcomes with "
+             "keys that are not all ints / all strings are outside the model (counted, not compared).",
         design_ref="§5 C22",
     ),
     "C39": dict(
